@@ -15,14 +15,15 @@ SPEC = dict(
                "configuration directory on a 256 KiB tmpfs and runs the operation with exactly f free pages for every f from 0 to enough, with 0, 1 and 2 "
                "temporary files left behind by really killed earlier writes. A seventh runs, in one process, a Save of the history object that fails (volume full) "
                "followed by a Save that succeeds on the same object: the file must hold exactly the recorded entries. Operations include saving an existing "
-               "command again with only its platforms changed.",
+               "command again with only its platforms changed. Two more states put the files into the file system differently: with a second hard link elsewhere, "
+               "and behind a relative symbolic link into a sibling directory (the binary runs in another working directory).",
     level_note="The limit applies to every regular file the child writes, so an implementation writing a temporary file first is cut in that file. "
                "Power-loss reordering below the file-system API is not modelled. strace counts invocations per system call and thread; the crash points are therefore enumerated as (call name, n) pairs taken from a tracing run; points not reached are counted.",
     engines=[dict(name="crashwrite", shards=T(16, 16), timeout=T(1500, 7200), needs_wtf=True)],
     rule="case = (operation, prepared state, fault flavour, k, n); non-trivial = the fault actually hit (limit below the new length, or the child was killed); "
          "distinct by (operation, state, flavour, k, n).",
-    floors=T({"faults-efbig-biting": 600, "faults-killed": 300, "killed-on:write": 50, "killed-on:fsync": 2, "killed-on:renameat": 2, "after-efbig-old": 1, "follow-up-after-kill": 15, "distinct_nontrivial": 900, "full-volume-runs": 25, "full-volume-with-leftover-files": 10, "efbig-dense-around-previous-length": 3, "in-process-sequences-with-a-failed-save": 12},
-             {"faults-efbig-biting": 20000, "faults-killed": 400, "killed-on:write": 50, "killed-on:fsync": 2, "killed-on:renameat": 2, "after-efbig-old": 1, "follow-up-after-kill": 15, "distinct_nontrivial": 20000, "full-volume-runs": 25, "full-volume-with-leftover-files": 10, "efbig-dense-around-previous-length": 3, "in-process-sequences-with-a-failed-save": 12}),
+    floors=T({"faults-efbig-biting": 600, "faults-killed": 300, "killed-on:write": 50, "killed-on:fsync": 2, "killed-on:renameat": 2, "after-efbig-old": 1, "follow-up-after-kill": 15, "distinct_nontrivial": 900, "full-volume-runs": 25, "full-volume-with-leftover-files": 10, "efbig-dense-around-previous-length": 3, "in-process-sequences-with-a-failed-save": 12, "layout:hard-linked": 48, "layout:symlinked": 48},
+             {"faults-efbig-biting": 20000, "faults-killed": 400, "killed-on:write": 50, "killed-on:fsync": 2, "killed-on:renameat": 2, "after-efbig-old": 1, "follow-up-after-kill": 15, "distinct_nontrivial": 20000, "full-volume-runs": 25, "full-volume-with-leftover-files": 10, "efbig-dense-around-previous-length": 3, "in-process-sequences-with-a-failed-save": 12, "layout:hard-linked": 48, "layout:symlinked": 48}),
     assumptions=["a file that did not exist before and is empty afterwards counts as previous content",
                  "the Go runtime ignores SIGXFSZ, so RLIMIT_FSIZE yields a short write followed by EFBIG"],
 )
